@@ -70,32 +70,32 @@ var patternAlphabet = []string{
 
 // forms of spelling a location for target path P (absolute, clean) under root R.
 var forms = []string{
-	"abs",          // P
-	"dot",          // R/./rel
-	"via_ok",       // R/ok/../rel
-	"via_secret",   // R/secret/../rel
-	"climb",        // R/ok/sub/../../rel
-	"dslash",       // R//rel
-	"lead_dslash",  // //P
-	"trail_slash",  // P/
-	"trail_dot",    // P/.
-	"root_climb",   // /../..P
-	"rel",          // relative to the working directory
-	"dot_rel",      // ./ + relative
-	"file_url",     // file://P
-	"file_colon",   // file:P
-	"file_upper",   // FILE://P
-	"file_host",    // file://localhost P
-	"ftp_url",      // ftp://lists.test P
-	"no_scheme",    // lists.test P
-	"query",        // P?x=1
-	"pct_dotdot",   // R/ok/%2e%2e/rel
-	"space_abs",    // " " + P
-	"http",         // http://lists.test/rel
-	"https",        // https://lists.test/rel
-	"http_dotdot",  // http://lists.test/../..P
-	"via_missing",  // R/nope/../rel
-	"long_climb",   // R/ok/../ok/../ok/../rel
+	"abs",         // P
+	"dot",         // R/./rel
+	"via_ok",      // R/ok/../rel
+	"via_secret",  // R/secret/../rel
+	"climb",       // R/ok/sub/../../rel
+	"dslash",      // R//rel
+	"lead_dslash", // //P
+	"trail_slash", // P/
+	"trail_dot",   // P/.
+	"root_climb",  // /../..P
+	"rel",         // relative to the working directory
+	"dot_rel",     // ./ + relative
+	"file_url",    // file://P
+	"file_colon",  // file:P
+	"file_upper",  // FILE://P
+	"file_host",   // file://localhost P
+	"ftp_url",     // ftp://lists.test P
+	"no_scheme",   // lists.test P
+	"query",       // P?x=1
+	"pct_dotdot",  // R/ok/%2e%2e/rel
+	"space_abs",   // " " + P
+	"http",        // http://lists.test/rel
+	"https",       // https://lists.test/rel
+	"http_dotdot", // http://lists.test/../..P
+	"via_missing", // R/nope/../rel
+	"long_climb",  // R/ok/../ok/../ok/../rel
 }
 
 // Loc is a generated location: a target and a spelling.
